@@ -154,8 +154,8 @@ pub async fn run_case(case: Vec<String>, detail: bool) -> String {
                     Ok(r) => {
                         let code = r.line.code.into_u16();
                         ev2.lock().push((next_seq(), now_ms(), format!("G:{}", cls(code))));
-                        if code >= 200 {
-                            break;
+                        if !(100..200).contains(&code) {
+                            break;      // everything outside 1xx is final for a non-INVITE transaction
                         }
                     }
                     Err(sip_core::Error::RequestTimedOut) => {
